@@ -60,6 +60,11 @@ class ElabPass:
     # The base-class does not have one, should be the only `ElabPass` with `CLASS_CACHE=None`.
     CLASS_LEVEL_CACHE: Optional[ClassLevelCache] = None
 
+    # Modules whose elaboration failed part-way, and the error which stopped it.
+    # Shared by *all* passes: a failed pass may leave a module partially rewritten,
+    # so no pass may run on it - and nothing may export it - afterwards.
+    FAILED: Dict[Module, Exception] = dict()
+
     def __init_subclass__(cls) -> None:
         # Create a new `ClassLevelCache` for each subclass
         cls.CLASS_LEVEL_CACHE = ClassLevelCache()
@@ -101,6 +106,11 @@ class ElabPass:
         `elaborate_module_base` instead.
         """
 
+        # Check whether elaborating this module has failed before, in any pass.
+        # A failed pass may have left it partially rewritten: report the original error again.
+        if module in ElabPass.FAILED:
+            raise ElabPass.FAILED[module]
+
         # Check if this has already been elaborated by this pass/ class
         if module in self.CLASS_LEVEL_CACHE.done:
             return module
@@ -115,20 +125,26 @@ class ElabPass:
             return self.fail(msg)
         self.CLASS_LEVEL_CACHE.pending.add(module)
 
-        # Depth-first traverse instances, ensuring their targets are defined
-        for inst in module.instances.values():
-            self.elaborate_instance_base(inst)
-        for arr in module.instarrays.values():
-            self.elaborate_instance_base(arr)
-        for instbundle in module.instbundles.values():
-            self.elaborate_instance_base(instbundle)
+        try:
+            # Depth-first traverse instances, ensuring their targets are defined
+            for inst in module.instances.values():
+                self.elaborate_instance_base(inst)
+            for arr in module.instarrays.values():
+                self.elaborate_instance_base(arr)
+            for instbundle in module.instbundles.values():
+                self.elaborate_instance_base(instbundle)
 
-        # Traverse Bundle instances
-        for bundle in module.bundles.values():
-            self.elaborate_bundle_instance(bundle)
+            # Traverse Bundle instances
+            for bundle in module.bundles.values():
+                self.elaborate_bundle_instance(bundle)
 
-        # Run the pass-specific `elaborate_module`
-        result = self.elaborate_module(module)
+            # Run the pass-specific `elaborate_module`
+            result = self.elaborate_module(module)
+        except Exception as e:
+            # No longer pending, and never to be elaborated (or exported) again.
+            self.CLASS_LEVEL_CACHE.pending.discard(module)
+            ElabPass.FAILED[module] = e
+            raise
 
         # Pop the hierarchy-stack and return it
         self.stack.pop()
